@@ -285,6 +285,15 @@ func lResolve(base string, ref string) string {
 		nb.Fragment = ""
 		return nb.String()
 	}
+	if isFile && filepath.IsAbs(pu.Path) && base != "" {
+		// an absolute path found in a document that has a host designates a resource of that host
+		if bu, err := url.Parse(base); err == nil && bu.Host != "" {
+			nb := *bu
+			nb.Path = pu.Path
+			nb.Fragment = ""
+			return nb.String()
+		}
+	}
 	pu.Fragment = ""
 	return pu.String()
 }
